@@ -485,8 +485,11 @@ func FlowFact(use ssa.Instruction, establishes func(Fact) bool, kills func(ssa.I
 		if len(p.Instrs) > 0 && len(p.Succs) == 2 && p.Succs[0] != p.Succs[1] {
 			if iff, ok := p.Instrs[len(p.Instrs)-1].(*ssa.If); ok {
 				truth := p.Succs[0] == b
-				if establishes(Fact{iff.Cond, truth, p}) {
-					return true
+				// (facts of the φ's operands only: dominating facts may have been killed since)
+				for _, f := range expandPhiFacts([]Fact{{iff.Cond, truth, p}}, 0, false) {
+					if establishes(f) {
+						return true
+					}
 				}
 			}
 		}
